@@ -16,6 +16,7 @@ import (
 	"math/big"
 	"runtime"
 	"sort"
+	"strings"
 	"testing"
 	"time"
 
@@ -49,7 +50,9 @@ type decoder struct {
 
 var decoders []decoder
 
-func pemOf(typ string, der []byte) []byte { return pem.EncodeToMemory(&pem.Block{Type: typ, Bytes: der}) }
+func pemOf(typ string, der []byte) []byte {
+	return pem.EncodeToMemory(&pem.Block{Type: typ, Bytes: der})
+}
 
 func must(err error) {
 	if err != nil {
@@ -308,10 +311,12 @@ func TestMain(m *testing.M) {
 			R.Require(d.name+"/len_rewrite", d.name+"/tag_swap")
 		}
 	}
-	R.Require("ber_depth>=1000", "vec_len_sweep")
+	R.Require("ber_depth>=1000", "vec_len_sweep", "hello_ext_sweep")
 	R.Assume("inputs that declare more than 4096 key-stretching iterations are skipped and counted as discarded (the statement exempts format-carried stretching)")
 	hx.Main(m, R)
 }
+
+const hangLimit = 30 * time.Second
 
 func runOne(t interface{ Fatalf(string, ...any) }, d *decoder, in []byte, kind string) {
 	if iterationsTooHigh(in) {
@@ -323,9 +328,14 @@ func runOne(t interface{ Fatalf(string, ...any) }, d *decoder, in []byte, kind s
 	if measure {
 		runtime.ReadMemStats(&before)
 	}
-	p := hx.Try(func() { d.call(append([]byte(nil), in...)) })
+	p, hung := hx.TryBounded(hangLimit, func() { d.call(append([]byte(nil), in...)) })
 	if measure {
 		runtime.ReadMemStats(&after)
+	}
+	if hung {
+		// "never loops without bound; time stays within a small multiple of the input size": the slowest call on a
+		// valid seed takes milliseconds (key stretching capped at 4096 iterations), the limit is tens of seconds
+		hx.Hang(R, "TestC18/"+d.name, fmt.Sprintf("%s did not return within %v on a %s input (%d bytes); valid inputs take milliseconds\n input hex: %s", d.name, hangLimit, kind, len(in), hex.EncodeToString(in)))
 	}
 	if p != nil {
 		t.Fatalf("%s panicked on a %s input (%d bytes): %v\n input hex: %s\n%s", d.name, kind, len(in), p.Val, hex.EncodeToString(in), p.Stack)
@@ -447,6 +457,29 @@ func TestC18_VectorLengths(t *testing.T) {
 		}
 	}
 	R.Subspace("every position x width 1..3 x 14 length-like values for each seed <= 2 KiB (quick: non-ASN.1 decoders only)", n, true)
+}
+
+// ClientHello / ServerHello with the extension block rebuilt consistently around bodies that are empty, cut short,
+// extended, duplicated, dropped or moved: per-extension parsers are reached with every enclosing length correct
+func TestC18_HelloExtensions(t *testing.T) {
+	var n int64
+	for i := range decoders {
+		d := &decoders[i]
+		if !strings.HasPrefix(d.name, "tls.unmarshal") {
+			continue
+		}
+		for _, seed := range d.seeds {
+			for _, m := range gen.HelloExtMutations(seed, hx.Thorough()) {
+				runOne(t, d, m.Data, "hello_ext")
+				n++
+			}
+		}
+		R.Case(true, hx.HashKey("helloext", d.name), "hello_ext_sweep")
+	}
+	if n < 100 {
+		t.Fatalf("harness: only %d hello extension mutations generated", n)
+	}
+	R.Subspace("length-consistent extension mutations of every captured ClientHello/ServerHello", n, true)
 }
 
 func TestC18_DeepBER(t *testing.T) {
